@@ -51,6 +51,12 @@ MUTANTS = [
      "        for schema_info in list(SchemaRegistry._schemas.values()):\n            for object_id in _SCHEMA_OBJECT_IDS:\n                for obj in schema_info.get(object_id, {}).values():\n                    try:\n                        obj.bake(schema)\n                    except Exception:  # pylint: disable=broad-except\n                        pass"),
     ("type-resolver-registered-under-default-name", ["C17"], "tartiflette/resolver/type_resolver.py",
      "        SchemaRegistry.register_type_resolver(self._schema_name, self)", "        SchemaRegistry.register_type_resolver(\"default\", self)"),
+    ("error-coercers-gathered-in-reverse", ["C18"], "tartiflette/execution/response.py",
+     "await asyncio.gather(*[error_coercer(error) for error in errors])", "(await asyncio.gather(*[error_coercer(error) for error in reversed(errors)]))[::-1]"),
+    ("unknown-operation-name-runs-first-operation", ["C18"], "tartiflette/execution/context.py",
+     "        operation = operations.get(operation_name)", "        operation = operations.get(operation_name) or next(iter(operations.values()), None)"),
+    ("execute-catch-all-narrowed", ["C18"], "tartiflette/engine.py",
+     "        except Exception as e:\n            if not isinstance(e, TartifletteError):", "        except (ValueError, KeyError) as e:\n            if not isinstance(e, TartifletteError):"),
     ("include-inverted", ["C01"], "tartiflette/directive/builtins/include.py",
      'if not directive_args["if"]:', 'if directive_args["if"] is None:'),
 ]
